@@ -8,9 +8,9 @@ CONSTANTS
   Emit = FALSE
   KnownClasses = {}
   Rich = TRUE
-  Dev_gram = TRUE
   SingleRangeStr = FALSE
   Styles <- CanonOnly
+  Dev_gram <- GramAsIs
   BaseVal <- BaseEdge
 INVARIANTS RefinesCex
 CHECK_DEADLOCK FALSE
